@@ -220,7 +220,7 @@ def _audit_cases(quick, rng):
             yield dict(c, ops=[['pop', 0], ['pop', b], ['pop', 0], ['pop', 0], ['pop', 5], ['pop', 60], ['pop', 0]])
     if not quick:
         for pol in qc.POLICIES:
-            yield dict(base(pol, [dict(S2[0], trials=300), dict(S2[1], trials=200)]), ops=[['pop', 1], ['pop', 4000], ['pop', 7]])
+            yield dict(base(pol, [dict(S2[0], trials=100), dict(S2[1], trials=60)]), ops=[['pop', 1], ['pop', 1500], ['pop', 7]])   # < 120 shuffle blocks
     # G. pop_buffer(n, decrement=False): trials are set up and notified, the counters stay (no queue ever runs out)
     P = [{'len': 3, 'trials': 2, 'kind': 'array', 'delays': 1}, {'len': 1, 'trials': 1, 'kind': 'gen', 'delays': 0},
          {'len': 0, 'trials': 2, 'kind': 'array', 'delays': 2}]
@@ -349,6 +349,8 @@ def oracle(case, res):
     for (e1, e2) in zip(added, added[1:]):
         k = e1[1]
         d, cyc = qc.eff_delays(case['stims'][k], fs)
+        if (not d) or (not cyc and used[k] >= len(d)):
+            return f'stimulus {k} was presented {used[k] + 1} times with only {len(d)} per-trial delays queued'
         dl = d[used[k] % len(d)] if cyc else d[used[k]]
         used[k] += 1
         if e2[2] != e1[2] + case['stims'][k]['len'] + dl:
